@@ -97,8 +97,28 @@ func (f *findings) report(w *world) {
 		}
 		return false
 	}
-	nonMinimal := 0
+	// a chain / walk failure whose last step, taken from a fresh compile, already fails as a
+	// single transition (or has a failing sub-case there) is the same defect seen again
+	explained := func(x *failure) bool {
+		if !strings.HasPrefix(x.kind, "chain-") && !strings.HasPrefix(x.kind, "walk-") {
+			return false
+		}
+		from, to := w.states[x.path[len(x.path)-2]].src, w.states[x.path[len(x.path)-1]].src
+		for _, it := range items {
+			y := it.x
+			if y.li == x.li && len(y.path) == 2 && (y.kind == "mismatch" || y.kind == "apply-error" || y.kind == "apply-panic") &&
+				subMultiset(w.states[y.path[0]].src, from) && subMultiset(w.states[y.path[1]].src, to) {
+				return true
+			}
+		}
+		return false
+	}
+	nonMinimal, repeats := 0, 0
 	for _, it := range items {
+		if explained(it.x) {
+			repeats++
+			continue
+		}
 		if dominated(it.x) {
 			nonMinimal++
 			continue
@@ -107,6 +127,7 @@ func (f *findings) report(w *world) {
 	}
 	w.r.Set("failing_cases_total", len(items))
 	w.r.Set("failing_cases_non_minimal_suppressed", nonMinimal)
+	w.r.Set("failing_chain_cases_explained_by_a_single_transition", repeats)
 }
 
 // ---------------------------------------------------------------- counters
@@ -122,7 +143,11 @@ type counters struct {
 	chain, walk              int64
 	maxDiffLines             int64
 	sessions, resets         int64
+	skew                     int64
 }
+
+const dnsfixSerial = 1234567 // == dnsfix.Serial (checked in main)
+const dnsfixSerialSkewed = dnsfixSerial + 1
 
 var cnt counters
 
@@ -694,4 +719,67 @@ func (w *world) walkStep(f *findings, li int, dir string, path []int, diffs [][]
 	det := fmt.Sprintf("%s: one store taken through %s with diffs %q: %s", layouts[li], w.pathNames(path), diffs, what)
 	f.add(&failure{kind: kind, li: li, path: path, detail: det, replay: replayOf(w, li, path, diffs)})
 	return false
+}
+
+// ---------------------------------------------------------------- serial skew
+
+// serialSkew applies every pure-deletion diff (B a sub-multiset of A) through
+// the file entry point with a diff file whose modification time - hence the
+// serial ApplyDiff derives - differs from the serial the store was compiled
+// with. That is what `dnsrocks-applyrdb -i diff` does in the field (the diff
+// file is newer than the data file the store was compiled from). Preprocessed
+// files are supposed to be independent of the serial (the preprocessor pins it
+// into Z lines), so the deletion must go through and give compile(B).
+func (w *world) serialSkew(f *findings) {
+	n := len(w.states)
+	var items [][2]int
+	for a := 0; a < n; a++ {
+		for b := 0; b < n; b++ {
+			if a != b && isSubLines(w.states[b].pre, w.states[a].pre) {
+				items = append(items, [2]int{a, b})
+			}
+		}
+	}
+	w.r.Set("serial_skew_pure_deletion_pairs", len(items))
+	vlib.ParallelFor(len(layouts)*len(items), func(i int) {
+		li, a, b := i/len(items), items[i%len(items)][0], items[i%len(items)][1]
+		diff := lineDiff(w.states[a].pre, w.states[b].pre)
+		dir := copyStore(w.comp[li][a].dir, w.scratch)
+		res := applyFileSerial(dir, diffText(diff), dnsfixSerialSkewed)
+		atomic.AddInt64(&cnt.applies, 1)
+		atomic.AddInt64(&cnt.skew, 1)
+		raw, err := dumpRaw(dir)
+		os.RemoveAll(dir)
+		if err != nil {
+			vlib.Infra("dump after ApplyDiff failed: %v", err)
+		}
+		atomic.AddInt64(&cnt.fullDumps, 1)
+		atomic.AddInt64(&cnt.evals, 1)
+		what := ""
+		switch {
+		case res.panicked != nil || res.err != nil:
+			what = res.String()
+		default:
+			if d := diffExact(raw, w.comp[li][b].ref); d != "" {
+				what = "after-apply vs compile of the remaining lines: " + d
+			}
+		}
+		if what != "" {
+			det := fmt.Sprintf("%s: store compiled from %s with serial %d; deletion diff %q towards %s applied with rdb.ApplyDiff(file) whose mtime gives serial %d: %s",
+				layouts[li], w.states[a].name, dnsfixSerial, diff, w.states[b].name, dnsfixSerialSkewed, what)
+			rp := replayOf(w, li, []int{a, b}, [][]string{diff})
+			rp["how"] = "compile files[0].preprocessed with rdb.Compile serial 1234567; write the diff to a file, os.Chtimes it to unix time 1234568, rdb.ApplyDiff(diffpath, dir)"
+			f.add(&failure{kind: "serial-skew", li: li, path: []int{a, b}, detail: det, replay: rp})
+		}
+	})
+}
+
+func isSubLines(sub, sup []string) bool {
+	i := 0
+	for _, x := range sup {
+		if i < len(sub) && sub[i] == x {
+			i++
+		}
+	}
+	return i == len(sub)
 }
